@@ -4,6 +4,7 @@ package main
 
 import (
 	"github.com/go-kit/log"
+	"go.universe.tf/metallb/internal/allocator/k8salloc"
 	vr "go.universe.tf/metallb/internal/verifrt"
 	v1 "k8s.io/api/core/v1"
 	metav1 "k8s.io/apimachinery/pkg/apis/meta/v1"
@@ -102,4 +103,52 @@ func VerifControllerSharing(mode, clause int) {
 		mem := w.c.ips.IPs(s.name)
 		vr.Assert((len(mem) == 1) == (vhStatusIP(api.objs[s.name]) != nil), "controller memory differs from the Service status")
 	}
+}
+
+func init() {
+	verifHarnesses["VerifBackendKey"] = func(a []int) { VerifBackendKey() }
+}
+
+// VerifBackendKey (C01 / C03): the backend key that decides whether two Services may share an address is a
+// function of the traffic policy and the pod selector alone: computing it again for the same Service,
+// under any map iteration order, gives the same key (otherwise a re-sync refuses an address the Service
+// validly shares), two Local Services get equal keys iff their selectors are identical, and a Local key
+// never equals a Cluster key.
+func VerifBackendKey() {
+	mk := func(local bool, sel int) *v1.Service {
+		s := &v1.Service{Spec: v1.ServiceSpec{ExternalTrafficPolicy: v1.ServiceExternalTrafficPolicyTypeCluster}}
+		if local {
+			s.Spec.ExternalTrafficPolicy = v1.ServiceExternalTrafficPolicyTypeLocal
+		}
+		switch sel {
+		case 1:
+			s.Spec.Selector = map[string]string{"app": "a"}
+		case 2:
+			s.Spec.Selector = map[string]string{"app": "a", "tier": "x"}
+		case 3:
+			s.Spec.Selector = map[string]string{"tier": "x", "app": "a"} // same selector, other insertion order
+		case 4:
+			s.Spec.Selector = map[string]string{"app": "a", "tier": "y"}
+		}
+		return s
+	}
+	la, lb := vr.Bool(), vr.Bool()
+	sa, sb := vr.Choose(5), vr.Choose(5)
+	a, b := mk(la, sa), mk(lb, sb)
+	ka := k8salloc.BackendKey(a)
+	vr.MapOrder(vr.OrderRotate)
+	ka2, kb := k8salloc.BackendKey(a), k8salloc.BackendKey(b)
+	vr.MapOrder(vr.OrderInsertion)
+	vr.Assert(ka == ka2, "the backend key of one Service differs between two computations")
+	same := sa == sb || (sa == 2 && sb == 3) || (sa == 3 && sb == 2)
+	if la && lb {
+		vr.Assert((ka == kb) == same, "two Local Services: equal backend keys iff identical pod selectors")
+	}
+	if la != lb {
+		vr.Assert(ka != kb, "a Local and a Cluster Service have the same backend key")
+	}
+	if !la && !lb {
+		vr.Assert(ka == kb, "two Cluster Services must have equal backend keys")
+	}
+	vr.Reach("backend keys compared")
 }
